@@ -37,14 +37,15 @@ def rule_loop(ctx):
     p = ctx.p
     loops = receive_loops(p)
     ctx.floor("C02.LOOP", "receive loops", len(loops), 3)
-    for fi, wh in loops:
-        paths = run_method(p, fi, opts={"max_while": 2})
+    for L in loops:
+        fi, wh = L
+        paths = run_method(p, fi, self_val=L.self_val, opts={"max_while": 2})
         ctx.paths_enumerated += len(paths)
         bad = False
         nseg = 0
         for pa in paths:
             if pa.outcome == "raise":
-                ctx.violated("C02.LOOP", fi.short, "the receive loop raises by itself", fi=fi, text="raises")
+                ctx.violated("C02.LOOP", L.short, "the receive loop raises by itself", fi=fi, text="raises")
                 bad = True
                 continue
             cur = None
@@ -63,16 +64,16 @@ def rule_loop(ctx):
                     if e.kind == "loop-exit":
                         if e.data["how"] == "break":
                             if not (empty and not empty[0].data["truth"]) or apps or procs:
-                                ctx.violated("C02.LOOP", fi.short, "the receive loop is left other than on an empty read (or after buffering data)", fi=fi, text="exit")
+                                ctx.violated("C02.LOOP", L.short, "the receive loop is left other than on an empty read (or after buffering data)", fi=fi, text="exit")
                                 bad = True
                         cur = None
                         continue
                     if len(reads) != 1:
-                        ctx.violated("C02.LOOP", fi.short, f"{len(reads)} reads in one iteration", fi=fi, text="reads")
+                        ctx.violated("C02.LOOP", L.short, f"{len(reads)} reads in one iteration", fi=fi, text="reads")
                         bad = True
                     chunk = reads[0].data["value"] if reads else None
                     if len(apps) != 1 or len(procs) != 1 or apps[0].idx > procs[0].idx:
-                        ctx.violated("C02.LOOP", fi.short, f"a received chunk is followed by {len(apps)} buffer.append and {len(procs)} buffer.process calls (expected exactly one of each, in that order): data is lost, duplicated or delivered late", fi=fi, text=f"append-process:{len(apps)}:{len(procs)}")
+                        ctx.violated("C02.LOOP", L.short, f"a received chunk is followed by {len(apps)} buffer.append and {len(procs)} buffer.process calls (expected exactly one of each, in that order): data is lost, duplicated or delivered late", fi=fi, text=f"append-process:{len(apps)}:{len(procs)}")
                         bad = True
                     else:
                         a = apps[0].data["args"][0] if apps[0].data["args"] else None
@@ -80,24 +81,24 @@ def rule_loop(ctx):
                         base = s.split(".decode(")[0]
                         okarg = a is not None and (base == "await " + show(chunk) or base == "(await " + show(chunk) + ")") if chunk is not None else False
                         if not okarg:
-                            ctx.violated("C02.LOOP", fi.short, f"what is appended ({s[:60]}) is not the chunk that was read", fi=fi, text="append-arg")
+                            ctx.violated("C02.LOOP", L.short, f"what is appended ({s[:60]}) is not the chunk that was read", fi=fi, text="append-arg")
                             bad = True
                         cbarg = procs[0].data["args"][0] if procs[0].data["args"] else None
                         if not (isinstance(cbarg, Fn) and show(cbarg.self_val) == "self"):
-                            ctx.violated("C02.LOOP", fi.short, f"buffer.process is not given a bound consumer of this connection: {show(cbarg)[:40] if cbarg is not None else None}", fi=fi, text="consumer")
+                            ctx.violated("C02.LOOP", L.short, f"buffer.process is not given a bound consumer of this connection: {show(cbarg)[:40] if cbarg is not None else None}", fi=fi, text="consumer")
                             bad = True
                     conds = [x for x in seg if x.kind == "assume" and not (isinstance(x.data["cond"], Term) and x.data["cond"].op == "await")]
                     if conds:
-                        ctx.violated("C02.LOOP", fi.short, f"buffering/processing of a chunk is conditional on {show(conds[0].data['cond'])[:60]}", fi=fi, text=f"conditional:{show(conds[0].data['cond'])[:30]}")
+                        ctx.violated("C02.LOOP", L.short, f"buffering/processing of a chunk is conditional on {show(conds[0].data['cond'])[:60]}", fi=fi, text=f"conditional:{show(conds[0].data['cond'])[:30]}")
                         bad = True
                     cur = None
                     continue
                 if cur is not None:
                     seg.append(e)
         if nseg == 0:
-            ctx.undecided("C02.LOOP", fi.short, "no loop iteration explored", fi=fi)
+            ctx.undecided("C02.LOOP", L.short, "no loop iteration explored", fi=fi)
         elif not bad:
-            ctx.holds("C02.LOOP", fi.short, f"{nseg} iteration segments: read -> append(chunk) -> process(consumer); exit only on empty read", fi=fi)
+            ctx.holds("C02.LOOP", L.short, f"{nseg} iteration segments: read -> append(chunk) -> process(consumer); exit only on empty read", fi=fi)
 
 
 def rule_decode(ctx):
